@@ -15,10 +15,11 @@ MCNoBump == {}
 MCTreeQ == {"v3.1.0"}
 MCTreeT == {"v3.1.0", "v3"}
 \* simulated long histories: few names so that invocations meet tags that matter
-MCTagNamesS == {"v3.1.0-rc.1", "3.0.1", "v3", "latest", "v4.0.0", "v3.1", "rel.2024.01"}
-MCRequestsS == {"v3.0.1", "v3.1.0-rc.1", "v3.1.0", "v4.0.0", "3.1.0", "v0.0.0", "banana", "v3.1", "3.1", "v4", "v3.1.0+build.5"}
+MCTagNamesS == {"v3.1.0-rc.1", "3.0.1", "v3", "latest", "v4.0.0", "v3.1", "rel.2024.01", "v3.1-alpha.1", "v4"}
+MCRequestsS == {"v3.0.1", "v3.1.0-rc.1", "v3.1.0", "v4.0.0", "3.1.0", "v0.0.0", "banana", "v3.1", "3.1", "v4", "v3.1.0+build.5", "v03.1.0", ""}
 
-MCTagNamesT == MCTagNamesQ \cup {"v4", "v3.1", "release/v3.1.0", "v3.1-alpha.1"}
-MCRequestsT == DOMAIN MCReqTable
+MCTagNamesT == MCTagNamesQ \cup {"release/v3.1.0"}
+\* the remaining spellings (3.1.0, v03.1.0, v4.0.0, empty VERSION) are driven by the simulated histories, <missing> by quick
+MCRequestsT == {"v3.0.1", "v3.1.0-alpha.2", "v3.1.0-rc.1", "v3.1.0", "v3.1", "3.1", "v4", "v3.1.0+build.5", "v0.0.0", "banana"}
 MCDirtyT    == MCDirtyQ \cup {"ignored"}
 =============================================================================
